@@ -68,6 +68,7 @@ func (d *detRand) Read(p []byte) (int, error) {
 
 func resetGlobals() {
 	mgmtFault = ""
+	mgmtMetaStorage = ""
 	logger.Log = nopLogger{}
 	uuid.SetRand(&detRand{})
 	prometheus.DefaultRegisterer = prometheus.NewRegistry()
